@@ -36,7 +36,7 @@ CLAIMS = {
                  "before draining the detached object; the finalizer does not capture the pool; the HTTP/2 probe lock is released exactly "
                  "once on every path out of HTTPSConnection.connect; lock regions hold no blocking pool operation or foreign lock; the "
                  "scheduler is a queue.Queue subclass, takes block iff self.block, puts never block. "
-                 "Declined: fairness/eventual completion under all schedules (queue.LifoQueue is trusted), real-time bounds."),
+                 "Declined: fairness/eventual completion under all schedules (queue.LifoQueue is trusted), real-time bounds. No lost wake-up at close(): an unbounded wait for a slot must be ended by close() (C02-R10: it is not - F29, known)."),
         "note": _TRUST + "Linearizability of the queue itself is the stdlib's; the check shows nothing else is shared. F1b is a known finding; F2 was repaired.",
         "technique": "static analysis: lease typestate by abstract interpretation + write-set/escape/lockset queries over the AST; swap-then-drain and blocking mode of queue operations on effect rows",
     },
